@@ -38,6 +38,7 @@ func genTerm(t *rapid.T) termCase {
 	sc.Cfg.RetryDelayMs = rapid.SampledFrom([]int{1000, 10000}).Draw(t, "retry")
 	sc.Cfg.Predef = map[string]map[uint16]string{"*": {1: "p/one"}}
 	sc.Auto = gwsim.Auto{Connack: gwgen.U8(0), BrokerAcks: true, ClientRegack: true, ClientAcks: true, BrokerPubrel: true, Suback: "grant"}
+	maybeEager(t, sc)
 	c.Prefix = rapid.SampledFrom([]string{"fresh", "midconnect", "active", "active", "active", "asleep", "asleep-pinger", "resleep", "awake", "reconnected"}).Draw(t, "prefix")
 	keepalive := uint16(rapid.SampledFrom([]int{10, 60}).Draw(t, "keepalive"))
 	add := func(s ...gwsim.Step) { sc.Steps = append(sc.Steps, s...) }
